@@ -188,6 +188,14 @@ def Conv : Cst → Bool
   | .app _ _ _ a _ => Conv a
   | .paren _ a _ => Conv a
 
+/-- Some unary minus is applied directly (no parentheses) to another unary minus: `--x`, `- -x`. -/
+def Cst.adjNeg : Cst → Bool
+  | .lit _ _ => false
+  | .bin _ a _ b => a.adjNeg || b.adjNeg
+  | .neg _ a => a.level == 2 || a.adjNeg
+  | .app _ _ _ a _ => a.adjNeg
+  | .paren _ a _ => a.adjNeg
+
 /-- Some integer literal exceeds 2^64 - 1. -/
 def Cst.bigInt : Cst → Bool
   | .lit _ (.int ds) => 2 ^ 64 ≤ digitsToNat ds
